@@ -885,6 +885,8 @@ def run(ctx: Ctx) -> None:
 
 # ---------------------------------------------------------------------------
 WITNESSES = [
+    {"name": "seeded-C08-10", "file": "core/chains/parallel_chain.py", "old": "        if self._use_deep_copy:\n            return [\n                DisciplineData(deepcopy_dict_of_arrays(self.io.data))\n                for _ in range(len(self.disciplines))\n            ]\n\n", "new": "        if self._use_deep_copy:\n            return [DisciplineData(deepcopy_dict_of_arrays(self.io.data))] * len(\n                self.disciplines\n            )\n\n", "expect": "8.7", "note": "MDOParallelChain with use_deep_copy=True hands the same deep copy to all the dis"},
+    {"name": "seeded-C08-9", "file": "mda/mda_chain.py", "old": "\n        self.__sub_coupling_structures_iterator = iter(sub_coupling_structures)\n\n        chained_disciplines = []\n        for parallel_tasks in self.coupling_structure.sequence:\n            process = self.__create_process_from_disciplines(parallel_tasks)\n", "new": "\n        chained_disciplines = []\n        for parallel_tasks in self.coupling_structure.sequence:\n            self.__sub_coupling_structures_iterator = iter(sub_coupling_structures)\n            process = self.__create_process_from_disciplines(parallel_tasks)\n", "expect": "8.8", "note": "MDAChain restarts the sub_coupling_structures iterator at every stage of the seq"},
     {"name": "init-order-ignores-own-defaults-only", "file": IC, "old": "                available_data_names.extend(disc.io.output_grammar)\n", "new": "                available_data_names.extend(disc.io.input_grammar)\n", "expect": "8.6"},
     {"name": "edges-from-required-inputs-only", "file": DG, "old": "                set(disc.io.input_grammar),\n", "new": "                set(disc.io.input_grammar.required_names),\n", "expect": "8.1"},
     {"name": "edge-reversed", "file": DG, "old": "graph_add_edge(disc_i, disc_j, io=coupled_io)", "new": "graph_add_edge(disc_j, disc_i, io=coupled_io)", "expect": "8.1"},
